@@ -111,6 +111,11 @@ def verify_function(eng, key: str) -> FnReport:
                 for pat in c.call_sites:
                     if pat not in s.ghost.get("call_sites_seen", ()):
                         pass
+                for nm, text in c.hints.items():
+                    # proof hints: proved first (an obligation like any other), then available to the clauses below
+                    g = eng.eval_clause(s, text, fenv, fn.module, old_state=st.entry, extra={"result": res})
+                    eng.add_obligation(s, f"hint:{nm}", "hint", g, out.node or fn.node, text)
+                    s.assume(g)
                 for nm, text in c.ensures.items():
                     g = eng.eval_clause(s, text, fenv, fn.module, old_state=st.entry, extra={"result": res})
                     eng.add_obligation(s, f"ensures:{nm}", "postcondition", g, out.node or fn.node, text)
